@@ -153,7 +153,7 @@ def txDelta (cfg : Cfg) (st : State) (tx : Tx) (d : DbId) (j : Bytes) : Int :=
 /-- applied + added − refunded for (d, j) along a history. -/
 def ledger (cfg : Cfg) : State → List Op → DbId → Bytes → Int
   | _, [], _, _ => 0
-  | st, .tx t :: ops, d, j => txDelta cfg st t d j + ledger cfg (runTx cfg st t).2 ops d j
+  | st, .tx t :: ops, d, j => txDelta cfg st t d j + ledger cfg (pkAfter t (runTx cfg st t)).2 ops d j
   | st, .endBlock n :: ops, d, j => ledger cfg (endBlock st n) ops d j
 
 theorem stake_accounting_step (cfg : Cfg) (U : List Bytes) (st : State) (tx : Tx) (hs : SepU cfg U) (hinv : Inv cfg U st)
@@ -264,11 +264,13 @@ theorem stake_accounting_run (cfg : Cfg) (U : List Bytes) (st : State) (ops : Li
     cases o with
     | tx t =>
       obtain ⟨hok, hts, hrest⟩ := hside
-      have hi := (runTx_preserves cfg U st t hc hraw hsome hs hn hinv hok hts).1
+      have hi0 := (runTx_preserves cfg U st t hc hraw hsome hs hn hinv hok hts).1
+      have hf := pkAfter_fields t (runTx cfg st t)
+      have hi := (inv_wealth_congr cfg U _ (pkAfter t (runTx cfg st t)).2 hf.2.1 hf.2.2.2.1 hf.2.2.2.2.1 hf.2.2.2.2.2.1 hi0).1
       have h1 := stake_accounting_step cfg U st t hs hinv hts d j hj
-      have h2 := ih (runTx cfg st t).2 hi hrest
+      have h2 := ih (pkAfter t (runTx cfg st t)).2 hi hrest
       simp only [run, List.foldl_cons, step, ledger] at h2 ⊢
-      rw [h2, h1]; omega
+      rw [h2, stakeAt_of_live cfg _ _ hf.2.1, h1]; omega
     | endBlock n =>
       have hi := (endBlock_preserves cfg U st n hinv).1
       have h2 := ih (endBlock st n) hi hside
@@ -313,5 +315,80 @@ theorem unstake_opcode_counterexample : ¬ FullStatementUnstakeOpcodeConserves :
 /-- What the opcode does do (model = code, T-corr): stake −1, escrow for the origin +1.5·10^18. -/
 example : stakeAt toyCfg (vmUnstake toyCfg stOpcode addr1 addr2 (15 * 10 ^ 17)) .prop [0x11] = 2499 ∧
     (vmUnstake toyCfg stOpcode addr1 addr2 (15 * 10 ^ 17)).escOf (101 + refundDelay) addr1 = 15 * 10 ^ 17 := by decide
+
+/-! ## the public-key cache (a store outside the journal) follows the registry -/
+
+/-- A rejected transaction leaves the key cache alone … -/
+theorem pk_rejected_unchanged (tx : Tx) (r : String × State) (h : r.1 ≠ "ok") : (pkAfter tx r).2 = r.2 := by
+  cases tx <;> simp [pkAfter, h]
+
+/-- … so the whole step (account state AND key cache) of a rejected transaction changes nothing but the fee. -/
+theorem rejected_step_only_fee (cfg : Cfg) (st : State) (tx : Tx) (h : (runTx cfg st tx).1 ≠ "ok") :
+    step cfg st (.tx tx) = st ∨ processFee st tx.src = some (step cfg st (.tx tx)) := by
+  simp only [step]
+  rw [pk_rejected_unchanged tx _ h]
+  exact C20.rejected_changes_only_fee cfg st tx h
+
+/-- An accepted application makes `GetPubkey(id)` the applicant's public key. -/
+theorem pk_accepted_apply (cfg : Cfg) (st : State) (src id : Bytes) (typ stake : Nat) (acct pk vrf : Bytes)
+    (h : (runTx cfg st (.apply src id typ stake acct pk vrf)).1 = "ok") :
+    (step cfg st (.tx (.apply src id typ stake acct pk vrf))).pkOf id = some pk := by
+  simp [step, pkAfter, h, State.pkOf, State.putPk, List.lookup]
+
+/-- No other transaction kind, and no application of another id, changes the key cached for `j`. -/
+theorem pk_frame (cfg : Cfg) (st : State) (tx : Tx) (j : Bytes) (hj : j ≠ txTarget tx)
+    (hpk : (runTx cfg st tx).2.pk = st.pk) : (step cfg st (.tx tx)).pkOf j = st.pkOf j := by
+  cases tx with
+  | apply src id typ stake acct pk vrf =>
+    simp only [txTarget] at hj
+    simp only [step, pkAfter]
+    split
+    · have : (j == id) = false := by simpa using hj
+      simp [State.pkOf, State.putPk, List.lookup, this, hpk]
+    · simp [State.pkOf, hpk]
+  | add => simp [step, pkAfter, State.pkOf, hpk]
+  | refund => simp [step, pkAfter, State.pkOf, hpk]
+  | chacc => simp [step, pkAfter, State.pkOf, hpk]
+  | bad => simp [step, pkAfter, State.pkOf, hpk]
+
+example : (run toyCfg funded [.tx (.apply addr1 [0x11] 0 800 [] [7] [1]), .tx (.apply addr2 [0x11] 0 800 [] [9] [1])]).pkOf [0x11]
+    = some [7] := by decide
+
+/-! ## status follows the stake -/
+
+/-- `AddStake` decides the status on the NEW stake: what it writes into the status slot is `normal` exactly
+    when the topped-up stake is strictly above the minimum (else the old status). -/
+theorem addStake_status_on_new_stake (cfg : Cfg) (st : State) (p : Bytes) (m : Miner) (delta : Nat) :
+    ((addStakeApply cfg st p m delta).live (dbOfType m.typ)).get (slotStatus cfg m.id)
+      = [UInt8.ofNat (if reactivates m.typ ((m.stake + delta) % 2 ^ 64) then statusNormal else m.status)] := by
+  simp only [addStakeApply, updateMiner, write_get, and_self, if_true]
+
+/-- "The status of a record is what a fresh application with the same stake would have." -/
+def FullStatementStatusFollowsStake : Prop :=
+  ∀ cfg st d id m, CodecId cfg → RawOK cfg → C20.Reachable cfg st → getMinerById cfg st d id = some m →
+    ∀ ms, minStake m.typ = some ms → (m.status = statusNormal ↔ ms ≤ m.stake)
+
+/-- False of the code (finding `reactivation-needs-more-than-minimum`): topping an aborted miner up to exactly
+    the minimum leaves it aborted (`>`), while an application with exactly the minimum is accepted (`≥`). -/
+theorem status_follows_stake_counterexample : ¬ FullStatementStatusFollowsStake := by
+  intro h
+  let ops : List Op := [.tx (.apply addr1 [0x11] 1 2000 [] [1] [1]), .endBlock 101, .tx (.refund addr1 [0x11] 1),
+    .endBlock 102, .tx (.add addr1 [0x11] 1)]
+  have hr : C20.Reachable toyCfg (run toyCfg funded ops) :=
+    ⟨100, _, ops, by
+      intro o ho
+      simp only [ops, List.mem_cons, List.not_mem_nil, or_false] at ho
+      rcases ho with rfl | rfl | rfl | rfl | rfl
+      · exact ⟨by decide, by decide⟩
+      all_goals trivial, rfl⟩
+  obtain ⟨m, hm⟩ : ∃ m, getMinerById toyCfg (run toyCfg funded ops) .prop [0x11] = some m :=
+    Option.isSome_iff_exists.mp (by decide)
+  have hst : (getMinerById toyCfg (run toyCfg funded ops) .prop [0x11]).map (fun m => (m.typ, m.stake, m.status)) = some (1, 2000, 1) := by
+    decide
+  rw [hm] at hst
+  simp only [Option.map_some, Option.some.injEq, Prod.mk.injEq] at hst
+  have := h toyCfg _ .prop [0x11] m toy_codecId toy_rawOK hr hm 2000 (by rw [hst.1]; decide)
+  rw [hst.2.1, hst.2.2] at this
+  exact absurd (this.mpr (Nat.le_refl _)) (by decide)
 
 end Rangers.Props.C20B
